@@ -224,6 +224,25 @@ func runC16(c *Ctx) {
 					why = "the value stored is not fresh per iteration"
 				}
 			}
+			if ok {
+				// ... and on every iteration (not only for some replica numbers)
+				for _, in := range DirectSites(clone, StoreTo("ReplicaNum", s.FReplicaNum)) {
+					if lp := InnermostLoopOf(in); lp != nil {
+						every := lp.EveryIterationPasses(func(x ssa.Instruction) bool {
+							v, isSt := StoredValue(x, fld.field)
+							if !isSt {
+								return false
+							}
+							fresh, deep := p.freshValue(v, fld.depth2)
+							return fresh && (deep || len(fld.depth2) == 0)
+						})
+						if !every {
+							ok = false
+							why = "the per-replica copy is made only on some iterations of the cloning loop"
+						}
+					}
+				}
+			}
 			c.Check(ok, r3, "field:"+n, FirstPos(p, clone), "each replica gets its own "+n, "replicas share ProcessConfig."+n+" ("+why+"): it is modified per replica by "+fld.writer+", so all replicas end up with the value rendered for one of them, chosen by map iteration order")
 		}
 		if len(wnames) < 2 {
@@ -368,6 +387,69 @@ func runC16(c *Ctx) {
 			})
 		}
 		c.Check(okVars, r4, "own-vars", FirstPos(p, render), "each process is rendered with its own variables", "a process is rendered with variables that are not its own")
+	}
+	// the template engine keeps no variables between calls
+	{
+		tplT := p.Named("templater", "Templater")
+		okState := true
+		var bad ssa.Instruction
+		for _, f := range p.FuncsOfPkg("templater") {
+			if !recvIs(f, tplT) {
+				continue
+			}
+			AllInstrs(f, func(in ssa.Instruction) {
+				switch x := in.(type) {
+				case *ssa.Store:
+					if fa, ok := x.Addr.(*ssa.FieldAddr); ok {
+						if nt, okn := deref(fa.X.Type()).(*types.Named); okn && nt.Obj() == tplT.Obj() {
+							fld := derefStruct(fa.X.Type()).Field(fa.Field)
+							if fld.Name() != "err" {
+								okState = false
+								bad = in
+							}
+						}
+					}
+				case *ssa.MapUpdate:
+					if lf := PathOf(x.Map).LastField(); lf != nil && lf.Pkg() != nil && lf.Pkg().Name() == "templater" {
+						okState = false
+						bad = in
+					}
+				case *ssa.Call:
+					// the data passed to template.Execute: the engine's vars, the extra parameter, or a map made in this call
+					if o := CalleeObj(&x.Call); o != nil && o.Name() == "Execute" && o.Pkg() != nil && o.Pkg().Path() == "text/template" {
+						d := x.Call.Args[len(x.Call.Args)-1]
+						if mi, isMi := d.(*ssa.MakeInterface); isMi {
+							d = mi.X
+						}
+						okD := false
+						switch y := stripConv(d).(type) {
+						case *ssa.Parameter:
+							okD = true
+						case *ssa.Call:
+							okD = true // maps.Clone(...) etc: made in this call
+							_ = y
+						case *ssa.MakeMap:
+							okD = true
+						case *ssa.UnOp:
+							if lf := PathOf(y).LastField(); lf != nil && lf.Name() == "vars" {
+								okD = true
+							}
+						case *ssa.Phi:
+							okD = true
+						}
+						if !okD {
+							okState = false
+							bad = in
+						}
+					}
+				}
+			})
+		}
+		pos := FirstPos(p, render)
+		if bad != nil {
+			pos = p.InstrPos(bad)
+		}
+		c.Check(okState, r4, "renderer-stateless", pos, "the renderer keeps no variables between calls", "the template engine stores variables in the Templater between calls (or executes templates on such a retained map): variables of a process rendered earlier stay visible to processes rendered later, in map-iteration order")
 	}
 	if rf := roleFn["render"]; rf != nil {
 		c.Touch(rf)
